@@ -57,6 +57,16 @@ Theorem C09_observe_preserves : forall evs h, inv h ->
   inv h' /\ nobjs h' = nobjs h /\ (forall x, icontent h' x = icontent h x) /\ abs h' = abs h.
 Proof. exact observe_preserves_lemma. Qed.
 
+(* a materialisation (size(), eval(), [i], =, order ...) that is aborted by an error after k elements and is
+   survived by the caller (try/catch, or a Go caller that goes on): List.Eval collects into a local slice and
+   publishes it only at the end, so the step touches no object - the list is as lazy and as empty as before -,
+   changes nobody's content, and the next successful materialisation shows exactly the bound content *)
+Theorem C09_failed_eval_changes_nothing : forall h a k, inv h ->
+  let h' := step h (OEvalFail a k) in
+  inv h' /\ h_objs h' = h_objs h /\ (forall x, icontent h' x = icontent h x) /\
+  forall c, a < nobjs h -> items_content (step h' (OForce a c)) a = icontent h a.
+Proof. exact failed_eval_changes_nothing_lemma. Qed.
+
 (* maps: no operation of value/map.go changes what an existing map yields (Get, Iter, Size, sorted entries) *)
 Theorem C09_map_step_preserves : forall h o i m, mwf h -> get_map h i = Some m ->
   mwf (mstep h o) /\ get_map (mstep h o) i = Some m /\
@@ -135,6 +145,7 @@ Print Assumptions C09_history_items_view.
 Print Assumptions C09_run_refines.
 Print Assumptions C09_siblings_independent.
 Print Assumptions C09_observe_preserves.
+Print Assumptions C09_failed_eval_changes_nothing.
 Print Assumptions C09_map_step_preserves.
 Print Assumptions C09_map_history_persistent.
 Print Assumptions C09_combineN_alias_refuted.
